@@ -1,6 +1,8 @@
 use crate::engine::Run;
 use serde_json::Value;
 
+pub mod c10;
+pub mod c11;
 pub mod c12;
 pub mod c14;
 pub mod c15;
@@ -11,6 +13,8 @@ pub type ReplayFn = fn(&Run, &str, &Value) -> Option<bool>;
 
 /// (id, evidence level, run, replay)
 pub const REGISTRY: &[(&str, &str, RunFn, ReplayFn)] = &[
+    ("C10", "exploration", c10::run, c10::replay),
+    ("C11", "exploration", c11::run, c11::replay),
     ("C12", "exploration", c12::run, c12::replay),
     ("C14", "exploration", c14::run, c14::replay),
     ("C15", "exploration", c15::run, c15::replay),
